@@ -1149,6 +1149,20 @@ pub mod watchdog {
     use std::time::Instant;
 
     pub const HANG_S: u64 = 20;
+    /// ... during which the process must have burnt at least this much CPU time (a spinning
+    /// task does; a process that is merely not scheduled on a loaded machine does not)
+    pub const HANG_CPU_S: f64 = 10.0;
+
+    /// user + system CPU time of this process in seconds (from /proc/self/stat, 100 Hz ticks)
+    fn cpu_s() -> f64 {
+        let s = std::fs::read_to_string("/proc/self/stat").unwrap_or_default();
+        // the fields after the command name, which is in parentheses and may contain spaces
+        let rest = s.rsplit(')').next().unwrap_or("");
+        let f: Vec<&str> = rest.split_whitespace().collect();
+        // rest[0] is field 3 (state): utime = field 14, stime = field 15
+        let get = |i: usize| f.get(i - 3).and_then(|x| x.parse::<f64>().ok()).unwrap_or(0.0);
+        (get(14) + get(15)) / 100.0
+    }
     static BEAT_MS: AtomicU64 = AtomicU64::new(0);
     static RUNNING: AtomicBool = AtomicBool::new(false);
     static ENABLED: AtomicBool = AtomicBool::new(false);
@@ -1183,17 +1197,27 @@ pub mod watchdog {
     /// silent seconds)` must not return.
     pub fn start(on_hang: fn(String, String, Vec<Point>, Order, u64) -> !) {
         let _ = now_ms();
-        std::thread::spawn(move || loop {
+        std::thread::spawn(move || {
+          // CPU time at the last moment the heartbeat was seen to move
+          let mut last_beat = 0u64;
+          let mut cpu_at_beat = cpu_s();
+          loop {
             std::thread::sleep(std::time::Duration::from_millis(500));
+            let b = BEAT_MS.load(Ordering::Relaxed);
+            if b != last_beat {
+                last_beat = b;
+                cpu_at_beat = cpu_s();
+            }
             if !ENABLED.load(Ordering::SeqCst) || !RUNNING.load(Ordering::SeqCst) {
                 continue;
             }
-            let silent = now_ms().saturating_sub(BEAT_MS.load(Ordering::Relaxed)) / 1000;
-            if silent >= HANG_S {
+            let silent = now_ms().saturating_sub(b) / 1000;
+            if silent >= HANG_S && cpu_s() - cpu_at_beat >= HANG_CPU_S {
                 let (name, descr) = SCENARIO.lock().unwrap().clone().unwrap_or_default();
                 let (prefix, order) = CURRENT.lock().unwrap().clone().unwrap_or((vec![], Order::RunAsc));
                 on_hang(name, descr, prefix, order, silent);
             }
+          }
         });
     }
 }
